@@ -1,0 +1,24 @@
+//! Verification hooks (cargo feature `verif-hooks`, off by default).
+//!
+//! Add-only instrumentation used by the external verification harness: a process-global
+//! callback invoked before the pipeline / metrics mutex is taken, so that a cooperative
+//! scheduler can force a chosen interleaving of the real code. With no callback installed a
+//! yield point does nothing.
+use std::sync::{Arc, RwLock};
+
+type YieldHook = Arc<dyn Fn(&'static str) + Send + Sync>;
+
+static YIELD_HOOK: RwLock<Option<YieldHook>> = RwLock::new(None);
+
+/// Install (or remove, with `None`) the process-global yield callback.
+pub fn set_yield_hook(hook: Option<YieldHook>) {
+    *YIELD_HOOK.write().unwrap() = hook;
+}
+
+/// Called immediately before a lock acquisition at `site`.
+pub fn yield_point(site: &'static str) {
+    let hook = YIELD_HOOK.read().unwrap().clone();
+    if let Some(h) = hook {
+        h(site);
+    }
+}
